@@ -100,6 +100,16 @@ class WalkOracles(Oracles):
             if fa is None or fd is None:
                 raise Undecided("reduce on unknown payloads %r %r" % (acc, d))
             return Opaque("D", {"data"}, {"fold": tuple(fa) + tuple(fd)})
+        if name in ("eq", "ne") and tr.endswith("PartialEq") and len(args) == 2:
+            # is a table entry's extension set empty?  a fact about the data: both answers are explored
+            a, b = recv(it, args[0]), recv(it, args[1])
+            for x, y in ((a, b), (b, a)):
+                if isinstance(x, Opaque) and "exts_of" in x.info and isinstance(y, Adt) and y.name == EXTS and isinstance(y.fields[0], Int) and y.fields[0].is_conc() \
+                        and y.fields[0].val == 0:
+                    empty = self.choose("exts-of-%s-empty" % x.info["exts_of"], (False, True))
+                    return mkbool(empty if name == "eq" else not empty)
+        if (p.startswith("Exts::") and name in ("is_empty",)) and args and isinstance(recv(it, args[0]), Opaque) and "exts_of" in recv(it, args[0]).info:
+            return mkbool(self.choose("exts-of-%s-empty" % recv(it, args[0]).info["exts_of"], (False, True)))
         if p.endswith("BitSet::remove") or (name == "remove" and "bit_set" in p):
             i = self.id_of(args[1])
             if i is None and isinstance(args[1], Int) and args[1].is_conc():
@@ -204,6 +214,19 @@ def extender_table(F, rep, rule, graph_route):
                 d_i = a["dir%d" % i]
                 want_calls.append(("p%d" % i, d_i))
             got_calls = [(c[0], c[1]) for c in h.step_calls]
+            if not got_calls and a.get("exts-of-seed-empty") and not graph_route:
+                # a seed without any extension: the step function would report Terminal(no extensions) — not asking it is equivalent, provided
+                # the seed is still claimed, the path comes back empty and no extensions are reported
+                elems = list(pv.elems) if isinstance(pv, VecV) else None
+                ev = ex.fields[0] if isinstance(ex, Adt) and ex.name == EXTS else None
+                if "seed" not in h.removed:
+                    problems.append(("a seed without extensions is returned without being removed from the availability set", row))
+                elif elems is None or len(elems) != 0:
+                    problems.append(("for a seed without extensions the walk returns early and leaves %s stale entr%s of the previous walk in the shared path "
+                                     "buffer: the node builder appends them to this node" % (len(elems) if elems is not None else "?", "y" if elems and len(elems) == 1 else "ies"), row))
+                elif not (isinstance(ev, Int) and ev.is_conc() and ev.val == 0):
+                    problems.append(("for a seed without extensions the walk reports terminal extensions %r" % (ev,), row))
+                continue
             if got_calls != want_calls:
                 problems.append(("the step function is consulted for %s, the walk requires %s (current element and direction must advance to the "
                                  "step's result)" % (got_calls, want_calls), row))
